@@ -31,11 +31,13 @@ ASSUMPTIONS = [
     "rounded results (is_exact False): deviation at n<=10 compared with 10*(n+k)*k*eps_rel*cond(V)*max|e_n|*max(1,|C|) measured on the exact roots; "
     "numeric_croots precision taken as 1e-13 (sympy N() default), not eps",
 ]
-TIMEOUT = {"quick": 45, "thorough": 150}
+TIMEOUT = {"quick": 75, "thorough": 200}
 DEADLINE = {"quick": 100, "thorough": 1500}
 MIN_DECIDING = {"quick": 60, "thorough": 600}
 NCASES = {"quick": 230, "thorough": 5200}
-RUN_BUDGET = {"quick": 30, "thorough": 60}   # seconds per solver run (alarm inside the worker)
+RUN_BUDGET = {"quick": 20, "thorough": 50}    # seconds per solver run and per comparison phase (alarm inside the worker)
+CASE_BUDGET = {"quick": 50, "thorough": 140}  # no new run is started after this many seconds (watchdog = TIMEOUT)
+HEAVY = ("hard", "repeated_companion", "companion", "scrambled", "parametric", "syminit", "options")
 
 KEY_P1 = "acyclic-zero-coefficient-shift-single-special-case"
 KEY_P2 = "cyclic-constants-fitted-inside-zero-eigenvalue-transient"
@@ -53,7 +55,8 @@ def generate(seed, tier):
         c = M.generate_system(cs, tier)
         c["id"] = f"sys-{cs}"
         cases.append(c)
-    # interleave the cheap and the expensive ones deterministically (fixed first)
+    # potentially slow profiles first so that they overlap with the many cheap ones (stable, deterministic)
+    cases.sort(key=lambda c: (0 if c["profile"] == "fixed" else 1 + (HEAVY.index(c["profile"]) if c["profile"] in HEAVY else len(HEAVY))))
     return cases
 
 
@@ -161,6 +164,23 @@ def shape_of(expr):
         pows = [p for p in general.atoms(sympy.Pow) if p.exp.has(nsyms[0])]
         t = max(t, len(pows) + 1)
     return s, t, general
+
+
+def instantiate_form(f, vals):
+    """substitute the parameter values once (n stays symbolic) and replace CRootOf atoms by 100-digit floats
+    (sympy re-refines every CRootOf on every evalf call, which makes the 70-digit evaluation very slow)"""
+    import sympy
+    from sympy.polys.rootoftools import ComplexRootOf
+    m = {}
+    for sy in f.free_symbols:
+        if sy.name in vals:
+            x = vals[sy.name]
+            m[sy] = sympy.Rational(x.numerator, x.denominator)
+    g = f.xreplace(m) if m else f
+    croots = g.atoms(ComplexRootOf)
+    if croots:
+        g = g.xreplace({r: r.evalf(100) for r in croots})
+    return g
 
 
 def numeric_system(A, b, v, inst):
@@ -282,6 +302,9 @@ def run_case(case, tier):
         res["features"].append("zero-diagonal-chain")
 
     from recurrences.solver import RecurrenceSolver
+    import time
+    t_case = time.time()
+    timed_out_kinds = set()
     runs_done = 0
     nontrivial = False
     sample_runs = []
@@ -302,6 +325,13 @@ def run_case(case, tier):
             label = "default" if not kw["force_cyclic_solver"] else "forced-cyclic"
             if numeric_roots or numeric_croots:
                 label += f"+nr={int(numeric_roots)},nc={int(numeric_croots)},eps={eps}"
+            opt_sig = ("cyclic" if (kw["force_cyclic_solver"] or not recs.is_acyclic) else "acyclic", numeric_roots, numeric_croots, eps)
+            if opt_sig in timed_out_kinds:      # the very same solver configuration already ran out of time
+                bump(extra, "run-skipped-same-as-timed-out")
+                continue
+            if time.time() - t_case > CASE_BUDGET[tier]:
+                bump(extra, "run-skipped-case-budget")
+                continue
             P.reset_settings()
             _timed_out[0] = False
             signal.setitimer(signal.ITIMER_REAL, RUN_BUDGET[tier])
@@ -312,6 +342,7 @@ def run_case(case, tier):
                 is_exact = bool(solver.is_exact)
             except RunTimeout:
                 bump(extra, "run-timeout")
+                timed_out_kinds.add(opt_sig)
                 res["refusals"].append("timeout:" + label.split("+")[0])
                 continue
             except Exception as e:
@@ -342,7 +373,8 @@ def run_case(case, tier):
                     Nmax = max(s + t for s, t, _ in shapes) + dim + 2
                     Nmax = min(Nmax, 60)
                     truth = M.iterate(An, bn, vn, Nmax)
-                    for ci, f in enumerate(forms):
+                    for ci, f0 in enumerate(forms):
+                        f = instantiate_form(f0, vals)
                         s, t, _g = shapes[ci]
                         N = min(s + t + dim + 2, 60)
                         if len({truth[n][ci] for n in range(N + 1)}) > 1:
@@ -361,7 +393,7 @@ def run_case(case, tier):
                                 break
                             tv = truth[n][ci]
                             try:
-                                pv = P.eval_at(f, n, vals)
+                                pv = P.eval_at(f, n, {})
                             except P.Leftover as e:
                                 bad = {"kind": "leftover-symbol", "n": n, "detail": f"symbols {e.names} remain: {e.value}"}
                                 break
@@ -392,13 +424,16 @@ def run_case(case, tier):
                                         ratio = float(err / bnd)
                                         extra["max-deviation-ratio-e6"] = max(extra.get("max-deviation-ratio-e6", 0), int(ratio * 1e6))
                         if bad is not None:
-                            key = classify(kind, numeric_roots, info, ci in zreach)
+                            # the three known mechanisms corrupt the general branch only: the listed special cases are
+                            # plain matrix iterates, a mismatch there is something else
+                            in_general = bad["n"] >= s
+                            key = classify(kind, numeric_roots, info, ci in zreach) if (in_general and bad["kind"] in ("wrong-value-flagged-exact", "rounded-deviation-too-large")) else None
                             bad.update(key=key, run=label, solver=kind, is_exact=is_exact, component=case["vars"][ci],
                                        truth_seq=[P.val_str(truth[n][ci]) for n in range(min(N, 7) + 1)],
-                                       closed_form=str(f)[:400],
+                                       closed_form=str(f0)[:400],
                                        system=render_system(case), spectrum={k: info[k] for k in ("zero_mult", "zero_index", "has_complex", "max_mult")})
                             bad["detail"] = (f"[{label}/{kind}] {case['vars'][ci]}(n={bad['n']}): polar={bad.get('polar')} truth={bad.get('truth')} "
-                                             f"is_exact={is_exact}; {bad.get('detail','')} closed_form={str(f)[:200]} system={render_system(case)}")
+                                             f"is_exact={is_exact}; {bad.get('detail','')} closed_form={str(f0)[:200]} system={render_system(case)}")
                             sig = (label, key, bad["kind"])
                             if sig not in seen_keys:
                                 seen_keys.add(sig)
